@@ -35,7 +35,15 @@ partial def generic (g : DrvRun.GOracle) (j : Json) : Json :=
   | "load" => DrvLoad.load g j
   | "bind" => DrvBind.bind j
   | "typed" => DrvBind.typed j
-  | "lex" => DrvLex.lex j
+  | "lex" =>
+    -- the item stream and the parser's verdict against the specification (DrvLex), and the verdict -
+    -- accepted with this tree, or rejected - against the parser model (DrvParse); an accepted text whose
+    -- tree was not dumped (very long inputs) is compared by verdict only
+    let a := DrvLex.lex j
+    if !J.bool (J.get j "has_err") && J.isNull (J.get j "ast") then a
+    else
+      let b := DrvParse.parseCase j
+      if !J.isNull (J.get b "skipped") then a else both j a b
   | "lit" => DrvLit.lits g j
   | "cli" => DrvCli.cli j
   | "run2" => DrvRun2.run2 g j
